@@ -135,6 +135,7 @@ type vEnt struct {
 
 type vCluster struct {
 	hwBeyond int
+	fellBack bool // the real replica, in the in-sync set, took the HW-truncation fallback and dropped committed messages
 	v        *vPart
 	sims     map[string]*vSimLeader
 	logs     map[string][]vEnt // b, c
@@ -278,7 +279,11 @@ func (c *vCluster) observe(step vM) {
 	}
 	for i, e := range c.commitd {
 		if i >= len(ll) || ll[i] != e {
-			c.violation("committed-message-lost", fmt.Sprintf("offset %d was committed holding message v%d (epoch %d); the current leader %s holds %v there", i, e.id, e.ep, c.leader, func() interface{} {
+			sig := "committed-message-lost"
+			if c.fellBack && c.leader == "a" {
+				sig = "committed-message-lost:after-hw-truncation-fallback"
+			}
+			c.violation(sig, fmt.Sprintf("offset %d was committed holding message v%d (epoch %d); the current leader %s holds %v there", i, e.id, e.ep, c.leader, func() interface{} {
 				if i < len(ll) {
 					return ll[i]
 				}
@@ -393,6 +398,14 @@ func TestVerifC02(t *testing.T) {
 				// fetches c's new messages
 				script = []int{2, 0, 0, 0, 0, 0, 0, 1, 0, 3, 1, 0, 3, 3, 0, 1, 1, 2, 2, 1, 0, 0, 1, 0, 3}
 				stats["corpus/running-follower-ahead-of-new-leader"]++
+			}
+			if k == 3 {
+				// fourth corpus history (the truncation fallback, known finding): b leads, one message is stored by all three
+				// and committed when c reports it -- the real replica's last response still carried the HW -1; c is elected
+				// and is gone before it answers the real replica's leader-epoch request; a falls back to cutting its log at
+				// its own HW, and, still in the in-sync set, is elected
+				script = []int{2, 0, 3, 0, 0, 1, 0, 0, 1, 1, 0, 1, 0, 0, 1, 1, 0, 6, 1, 2, 0}
+				stats["corpus/hw-fallback-then-elected"]++
 			}
 			pop := func(def func() int) int {
 				if len(script) > 0 {
@@ -564,6 +577,47 @@ func TestVerifC02(t *testing.T) {
 						c.synced["a"] = true
 						c.observe(vM{"op": "reconcile", "r": "a"})
 					}
+				case 6: // (corpus only) a phantom is elected and is gone before it answers the real replica's leader-epoch request
+					cands := others(func(x string) bool { return c.synced[x] && c.inISR(x) })
+					if len(cands) == 0 || c.leader == "a" {
+						continue
+					}
+					nl := cands[pop(func() int { return r.intn(len(cands)) })%len(cands)]
+					if nl == "a" {
+						continue
+					}
+					c.sims[c.leader].mu.Lock()
+					c.sims[c.leader].epoch = 0
+					c.sims[c.leader].mu.Unlock()
+					sl := c.sims[nl]
+					sl.mu.Lock()
+					sl.hw, sl.hwSent = c.hws[nl], c.hwOf("a")
+					sl.asked, sl.mute, sl.unanswered = nil, true, 0
+					sl.mu.Unlock()
+					hwA, endA := c.hwOf("a"), int64(len(c.logOf("a"))-1)
+					e, err := sl.lead() // returns when the real server has applied the change: three timeouts, then the fallback
+					if err != nil {
+						c.violation("election-failed", err.Error())
+						break
+					}
+					sl.mu.Lock()
+					sl.mute = false
+					unanswered := sl.unanswered
+					sl.mu.Unlock()
+					c.leader, c.epoch = nl, e
+					c.view = map[string]int64{}
+					for _, x := range c.isr {
+						c.view[x] = -1
+					}
+					c.view[nl] = int64(len(c.logs[nl]) - 1)
+					c.synced = map[string]bool{nl: true, "a": true}
+					if c.inISR("a") && hwA < endA && hwA+1 < int64(len(c.commitd)) {
+						c.fellBack = true // an in-sync replica cut away part of the committed prefix
+					}
+					stats["step/elect-phantom-unreachable"]++
+					stats["step/leader-epoch-requests-unanswered"] += unanswered
+					c.observe(vM{"op": "elect", "r": nl, "e": e})
+					c.observe(vM{"op": "fallback", "r": "a"})
 				case 3: // reconcile a phantom follower
 					cands := others(func(x string) bool { return !c.synced[x] && x != "a" })
 					if len(cands) == 0 {
